@@ -144,6 +144,7 @@ type gen struct {
 	escaped  map[*ssa.Alloc]bool
 	heapSorts map[string]string
 	heapKinds map[string]string
+	epochVars map[string]string
 	epochs map[string]*epochInfo
 	callSeq  int
 	ghostCalls []ghostCall
@@ -262,13 +263,15 @@ func (g *gen) heapVar(st *state, name, sort string) string {
 		return v
 	}
 	g.heapSorts[name] = sort
-	v := name + "@" + st.epoch
-	if g.declared[v] {
+	key := name + "@" + st.epoch
+	if v, ok := g.epochVars[key]; ok {
 		return v
 	}
-	g.declare(v, sort)
+	v := key
 	ep := g.epochs[st.epoch]
 	if ep == nil {
+		g.declare(v, sort)
+		g.epochVars[key] = v
 		if st.epoch == "0" {
 			g.entryWellFormed(name, v)
 		}
@@ -282,28 +285,40 @@ func (g *gen) heapVar(st *state, name, sort string) string {
 			case "weak":
 				// only objects allocated since the parent state may differ: the parent's array is reused
 				// (its values at not-yet-allocated references are unconstrained)
-				st.heap[name] = pv
+				g.epochVars[key] = pv
 				if ep.top != "" {
 					g.wellFormed(name, pv, ep.top)
 				}
 				return pv
 			case "true":
-				g.assert(sEq(v, pv))
+				g.epochVars[key] = pv
+				return pv
 			case "false":
+				g.declare(v, sort)
 			default:
+				g.declare(v, sort)
 				g.assert(fmt.Sprintf("(forall ((r Int)) (! (=> %s (= (select %s r) (select %s r))) :pattern ((select %s r))))", k, v, pv, v))
 			}
 			if ep.top != "" {
 				g.wellFormed(name, v, ep.top)
 			}
 		} else if ep.keep(name, "") == "true" {
-			g.assert(sEq(v, pv))
+			g.epochVars[key] = pv
+			return pv
+		} else {
+			g.declare(v, sort)
 		}
+		g.epochVars[key] = v
 		return v
 	}
-	for _, p := range ep.parents {
-		g.assert(sImp(p.cond, sEq(v, g.heapVar(p.st, name, sort))))
+	g.declare(v, sort)
+	g.epochVars[key] = v
+	// merge epoch: nested ite over the parents
+	t := g.heapVar(ep.parents[len(ep.parents)-1].st, name, sort)
+	for x := len(ep.parents) - 2; x >= 0; x-- {
+		t = sIte(ep.parents[x].cond, g.heapVar(ep.parents[x].st, name, sort), t)
 	}
+	g.assert(sEq(v, t))
 	return v
 }
 
@@ -806,7 +821,7 @@ func (P *Program) generate(fn *ssa.Function, con *Contract, opts genOpts) (vc *V
 	g := &gen{P: P, fn: fn, con: con, sorts: newSortReg(), vals: map[ssa.Value]string{}, locs: map[ssa.Value]*loc{}, tuples: map[ssa.Value][]string{},
 		guard: map[*ssa.BasicBlock]string{}, exit: map[*ssa.BasicBlock]*state{}, edge: map[[2]*ssa.BasicBlock]string{}, loops: map[*ssa.BasicBlock]*loopInfo{},
 		back: map[[2]*ssa.BasicBlock]bool{}, declared: map[string]bool{}, iters: map[*ssa.Range]*iterInfo{}, closures: map[ssa.Value]*ssa.MakeClosure{},
-		oblNames: map[string]int{}, opts: opts, params: map[string]ssa.Value{}, escaped: map[*ssa.Alloc]bool{}, heapSorts: map[string]string{}, heapKinds: map[string]string{}, epochs: map[string]*epochInfo{}}
+		oblNames: map[string]int{}, opts: opts, params: map[string]ssa.Value{}, escaped: map[*ssa.Alloc]bool{}, heapSorts: map[string]string{}, heapKinds: map[string]string{}, epochVars: map[string]string{}, epochs: map[string]*epochInfo{}}
 	g.vc = &VC{Func: P.relName(fn), Sorts: g.sorts}
 	if len(fn.Blocks) == 0 {
 		return nil, fmt.Errorf("%s has no body", fn)
